@@ -62,7 +62,7 @@ fn huge_case(seed: u64, run: u64) -> (st::CaseSpec, Vec<Op>) {
     let mut rng = crate::rng::Rng::derive(seed, run, 77);
     let cap = u32::MAX - rng.below(9) as u32;
     let cfg = Cfg { sync: rng.chance(1, 2), backend: Backend::Vec, unify: rng.chance(1, 2), freelist: 1 + rng.below(2) as u8, cap, reserved: 0, min_seg: 8, max_align: 8, retries: 3, magic: 0, offset: 0 };
-    let spec = st::CaseSpec { cfg, spurious_seed: None, finish_order: 1, remove_on_drop: false, shared_truncate: false };
+    let spec = st::CaseSpec { cfg, spurious_seed: None, finish_order: 1, remove_on_drop: false, shared_truncate: false, late_remove: false };
     // a grid instead of a sample (the arena is the expensive part, the calls are not): the cursor 0..=17 bytes below
     // the end x every alignment class of the menu x {alloc::<T>, alloc_aligned_bytes::<T>(0..=2)}, each handle
     // released again; then two small handles in the last bytes released in order (their extents cannot become segments)
